@@ -1297,6 +1297,58 @@ def run(chk, runner_ok):
         m, e = mixin.parse_css_spec(s)
         if m != spec_map(specs) or e:
             chk.fail("css-parse-rendered-spec", {"specs": specs, "text": s}, {"map": m, "errors": e})
+    # the statements of C07_css_parse / C07_css_parse_errors on the implementation: declaration lists
+    # of any length, arbitrary white-space layout, arbitrary inert text in the gaps
+    WSC = " \t\r\n"
+    ALLP = ["width", "height", "min-width", "min-height", "max-width", "max-height"]
+    ALLU = ["ch", "em", "ex", "rem", "px", "cm", "mm", "in", "pc", "pt"]
+    INERT = " \t\n;:.-019xyzabcdefgijklnopqrstuv!#é"          # no m, w, h: nothing starts a declaration
+
+    def wsrun(n=3):
+        return "".join(rng.choice(WSC) for _ in range(rng.randint(0, n)))
+
+    def gap_verdict(j, after):
+        """independent scanner: None | 'css-bad-content' | 'css-missing-semicolon'"""
+        if not j:
+            return None
+        t = j.lstrip(WSC)
+        semi = t.startswith(";")
+        if semi:
+            t = t[1:].lstrip(WSC)
+        if t:
+            return "css-bad-content"
+        return "css-missing-semicolon" if (after and not semi) else None
+    for _ in range(chk.n(1500, 15000)):
+        n = rng.randint(1, 6)
+        decls, text, want_errs, junk = [], "", [], rng.random() < 0.5
+        for i in range(n):
+            if junk and rng.random() < 0.4:
+                gap = "".join(rng.choice(INERT) for _ in range(rng.randint(0, 4)))
+            elif i == 0:
+                gap = wsrun() + rng.choice(["", ";" + wsrun()])
+            else:
+                gap = wsrun() + ";" + wsrun()
+            v = gap_verdict(gap, i > 0)
+            if v:
+                want_errs.append({"pos": len(text), "code": v})
+            p_, u_ = rng.choice(ALLP), rng.choice(ALLU)
+            num = rng.choice(["%d" % rng.randint(0, 999), "%s.%d" % (rng.choice(["", "0", "12"]), rng.randint(0, 99)),
+                              "007"])
+            text += gap + p_ + wsrun() + ":" + wsrun() + num + u_
+            decls.append((p_, u_))
+        tr = "".join(rng.choice(INERT) for _ in range(rng.randint(0, 3))) if junk and rng.random() < 0.4 \
+            else rng.choice(["", wsrun() + ";" + wsrun()])
+        v = gap_verdict(tr, True)
+        if v:
+            want_errs.append({"pos": len(text), "code": v})
+        text += tr
+        want_map = {}
+        for p_, u_ in decls:
+            want_map[p_] = u_
+        got = mixin.parse_css_spec(text)
+        if got != (want_map, want_errs or None) or list(got[0]) != list(want_map):
+            chk.fail("css-parse-grammar", {"text": text}, {"got": got, "expected": (want_map, want_errs or None)})
+        chk.count(("cssgrammar", text))
     maps = [None, {}] + [spec_map(sl) for sl in speclists[:: max(1, len(speclists) // 25)]]
     scases, impl = [], []
     for rm in maps[2:]:
